@@ -55,6 +55,19 @@ def ensure_rows(E, x: Tensor):
     if x.rows is not None:
         return x.rows
     k = x.ndim - 1
+    feat = x.shape[-1]
+    if isinstance(feat, int) and 1 <= feat <= 8 and x.sort == REAL:
+        # concrete feature count: the row IS the tuple of its components (constructor
+        # term), so rows with equal components are equal (extensionality by congruence)
+        # and index substitution (vmap / scan re-wrapping) reaches the components
+        ctor = C.uf(f"rowof{feat}", *([REAL] * feat + [ROW]))
+        rows = lambda *b: ctor(*[C.as_real(x.at(*(tuple(b) + (j,)))) for j in range(feat)])  # noqa: E731
+        if k:
+            E.st.assume_forall([INT] * (k + 1), lambda *i: comp(rows(*i[:-1]), i[-1]) == C.as_real(x.at(*i)), "mkrow.comp")
+        else:
+            E.st.assume_forall([INT], lambda d: comp(rows(), d) == C.as_real(x.at(d)), "mkrow.comp")
+        x.rows = rows
+        return rows
     # canonical row function: two tensors of the same shape whose generic element is
     # the SAME term (z3 hash-consing) are the same tensor, hence share their rows -
     # a specification that mirrors a computation then feeds identical rows to networks
